@@ -257,7 +257,8 @@ func (g *progGen) items(depth int, inCmd bool) []string {
 			lines = append(lines, ind+"##!=>"+pick(g.r, []string{"", " ", "  "}))
 			g.count("mark")
 		case 2:
-			name := pick(g.r, []string{"st1", "st2", "st3"})
+			// names are the rest of the line: dots, blanks and shared beginnings belong to them
+			name := pick(g.r, []string{"st1", "st2", "st3", "st1", "st2", "grp.1", "grp.2", "part one", "part two", "a-b", "a-b.c", "é1", "é2"})
 			lines = append(lines, ind+"##!=< "+name)
 			g.stored = append(g.stored, name)
 			g.count("store")
@@ -304,7 +305,9 @@ func (g *progGen) items(depth int, inCmd bool) []string {
 					lines = append(lines, ind+"##!> include "+f)
 					g.count("include")
 				case 1:
-					lines = append(lines, ind+"##!> include "+f+" -- "+pick(g.r, []string{"@ ~", "~ @", "@ \"\"", "@ ~ ~ x", "oo 00 ar AR", "@ x @ y", "> ]", "e E", "=> X", "< L s S", "x X e \"\""}))
+					lines = append(lines, ind+"##!> include "+f+" -- "+pick(g.r, []string{"@ ~", "~ @", "@ \"\"", "@ ~ ~ x", "oo 00 ar AR", "@ x @ y", "> ]", "e E", "=> X", "< L s S", "x X e \"\"",
+						// white space that is not the directive's white space belongs to the key or value it touches
+						"\u00a0@ ~", "@ X\v", "\v@ y\u00a0", "~ \u2003", "@ \u0085x e E\u00a0"}))
 					g.count("include-suffix-replacement")
 				case 2:
 					x1 := g.includeFile(0, true)
